@@ -156,3 +156,23 @@ Print Assumptions C16_fields_under_reversal.
 Print Assumptions C16_metric_magnitudes_under_reversal.
 Print Assumptions C16_reflection.
 Print Assumptions C16_reflection_of_blending_ranges.
+
+(* ---------------------------------------------------------------------------------------------------------------
+   Running fields under the reversal of the y order (the grid of the reflected equilibrium runs from the other end of every
+   chain): poloidal distance and the zShift integral of the contour traversed the other way are 'total minus reversed'
+   (theories/Model_Quadrature.v: calc_distance, cumtrapz). *)
+From Coq Require Import List Reals.
+From HT Require Import Field Model_Quadrature Proof_Quadrature Proof_Reversal.
+Import ListNotations.
+Local Open Scope R_scope.
+
+Theorem C16_distance_under_y_reversal : forall pts : list (R * R),
+  calc_distance Rops (rev pts) = rev_distance Rops (calc_distance Rops pts).
+Proof. exact reverse_distance. Qed.
+
+Theorem C16_integral_under_y_reversal : forall (l : list (R * R)) X, l <> [] ->
+  cumtrapz Rops (map snd (rev l)) (map (fun p => X - fst p) (rev l)) =
+  map (fun z => last (cumtrapz Rops (map snd l) (map fst l)) 0 - z) (rev (cumtrapz Rops (map snd l) (map fst l))).
+Proof. exact cumtrapz_reverse. Qed.
+
+Print Assumptions C16_integral_under_y_reversal.
